@@ -17,6 +17,10 @@ pub fn rt_debug_assert(c: bool) {}
 pub fn rt_panic<T>() -> (r: T)
     ensures false
 { panic!() }
+/// a panic in statement position (also the diverging branch of a let-else): does not return
+#[verifier::external_body]
+pub fn rt_never() -> !
+{ panic!() }
 //@else
 pub fn rt_assert(c: bool)
     requires c
@@ -28,6 +32,10 @@ pub fn rt_debug_assert(c: bool)
 
 #[verifier::external_body]
 pub fn rt_panic<T>() -> (r: T)
+    requires false
+{ panic!() }
+#[verifier::external_body]
+pub fn rt_never() -> !
     requires false
 { panic!() }
 //@endif
